@@ -82,7 +82,9 @@ def run(ctx):
         for g in ('M', 'F'):
             prev = None
             for ag in LIB_LABELS + [l for l in labels if l not in LIB_LABELS]:      # every label asked above: the code clause holds wherever there is a weight
-                w = athlib.get_implement_weight(ev, g, ag)
+                try: w = athlib.get_implement_weight(ev, g, ag)
+                except Exception as e:
+                    fail('athlib.get_implement_weight', [ev, g, ag], 'a weight text (possibly empty)', type(e).__name__, 'the weight look-up raises'); continue
                 if ag.startswith('V') and ag in LIB_LABELS:
                     if not w:
                         fail('athlib.get_implement_weight', [ev, g, ag], 'a weight for every masters band (neighbouring bands have one)', repr(w), 'masters band without implement')
@@ -163,4 +165,5 @@ def run(ctx):
     ctx.stats['throws_with_weight'] = nont
     ctx.stats['rules'] = info['rules'] if keys is not None else None
     ctx.exhaustive = True
-    ctx.sample({'request': ['SP', 'M', 'V100'], 'weight': athlib.get_implement_weight('SP', 'M', 'V100')})
+    try: ctx.sample({'request': ['SP', 'M', 'V100'], 'weight': athlib.get_implement_weight('SP', 'M', 'V100')})
+    except Exception as e: ctx.sample({'request': ['SP', 'M', 'V100'], 'weight': 'raises ' + type(e).__name__})
